@@ -290,8 +290,10 @@ class PlainQuantity(Generic[MagnitudeT], PrettyIPython, SharedRegistryObject):
 
         # Equality only looks at the dimensionality (1 Hz == 1 Bq although their
         # base units differ by the dimensionless "count"), so must the hash.
+        # Quantities built through the generic class (``pint.Quantity(...)``) compare
+        # equal to those built by their registry: hash the registry's class for both.
         return hash(
-            (self_base.__class__, self_base.magnitude, self_base.dimensionality)
+            (self._REGISTRY.Quantity, self_base.magnitude, self_base.dimensionality)
         )
 
     @property
